@@ -287,10 +287,13 @@ def load_dir(d):
     ren = _field_renames(adts)
     if ren:
         _apply_field_renames(js, ren)
-    from .inline import inline_new_helpers
+    from .inline import inline_new_helpers, fn_renames, apply_fn_renames
+    fren = fn_renames(js)
+    apply_fn_renames(js, fren)
     inlined = inline_new_helpers(js)
     for j in js:
         facts.load_json(j)
     facts.inlined_helpers = inlined
+    facts.fn_renames = fren
     facts.field_renames = {"%s.%s" % (adt.split("::")[-1], rn): cn for (adt, cn), rn in ren.items()}
     return facts
